@@ -105,7 +105,7 @@ def make_case(rng):
         if tailed:
             res = S.gen_stereo_molecule(rng, n_db=rng.choice([1, 1, 2]), n_chiral=0, max_extra=rng.choice([0, 1, 2]), p_ring=0.0, p_tail=1.0)
         else:
-            res = S.gen_stereo_molecule(rng, p_ring=0.5, p_unsat=0.2, **(dict(n_db=rng.choice([2, 3]), max_extra=14) if many else {}))
+            res = S.gen_stereo_molecule(rng, p_ring=0.5, p_unsat=0.2, p_hlig=rng.choice([0.0, 0.0, 0.3]), **(dict(n_db=rng.choice([2, 3]), max_extra=14) if many else {}))
         if res is not None:
             break
     if res is None:
@@ -249,6 +249,8 @@ def make_case(rng):
         feats.add('marked_substituent_shared_between_fragments')
     if tail:
         feats.add('long_alkyl_tail_fragment')
+    if any(g.nodes[s_['l2']]['element'] == 'H' for s_ in stereo):
+        feats.add('written_hydrogen_as_marked_substituent')
     if bracket_p:
         feats.add('bracket_atoms')
     items = list(frags.items())
